@@ -518,7 +518,7 @@ fn tilejson_case(cx: &CaseCtx, rep: &mut Report, rng: &mut Rng, served: bool) {
 			ts2.tilejson = text.clone();
 			let sub = dir.join(format!("pretty{shift}"));
 			let witness = |extra: Value| json!({"container": "directory (independent encoder, pretty-printed metadata)", "metadata_bytes": text.len(), "leading_blanks": shift * 3 % 67, "detail": extra});
-			let o = crate::codec::idir::EncOpts { meta_name: "tiles.json", no_meta: false, stray_files: false, alt_spellings: false };
+			let o = crate::codec::idir::EncOpts { meta_name: "tiles.json", no_meta: false, stray_files: false, alt_spellings: false, symlinks: false };
 			if crate::codec::idir::encode(&ts2, &sub, &o).is_err() {
 				continue;
 			}
